@@ -576,7 +576,7 @@ class Interp:
                         raise self.rt_error('TypeError', 'Catch block must be blank or a subclass of Error.')
                     if not inst.cls.is_subclass(cls):
                         continue
-                inst.f['backTrace'] = LyList(bt)
+                inst.f['backTrace'] = LyTuple(bt)
                 cenv = Env(env)
                 cenv.vars[var] = Cell(inst)
                 self.exec_block(body, cenv, new_scope=False)
@@ -586,7 +586,7 @@ class Interp:
 
     def frame_line(self, f):
         if f.native:
-            return 'native'
+            return 'native:0 in %s()' % f.name
         if f.name == 'script':
             return '%s:%d in script' % (f.path, f.line)
         return '%s:%d in %s()' % (f.path, f.line, f.name)
@@ -942,7 +942,10 @@ class Interp:
             env.vars['self'] = Cell(this)
         for p, a in zip(params, args):
             env.vars[p] = Cell(a)
-        self.frames.append(Frame(clo.name, clo.module or self.main_path, fn.line))
+        fname = clo.name
+        if fn.k == 'lambda':
+            fname = fn.x if isinstance(fn.x, str) else 'lambda'
+        self.frames.append(Frame(fname, clo.module or self.main_path, fn.line))
         depth = len(self.frames)
         try:
             if fn.k == 'lambda' and fn.c:
